@@ -37,6 +37,18 @@ def prepare(seed, conf, pending="mixed", presteps=10):
         g.a.write_file(0, "BIG", [950] + big[1:], mtime=g.stamp()); g.rec.env("rewrite the first block of 0/BIG")
         g.steps.append("rewrite the first block of 0/BIG")
         return g
+    if pending == "rehash":
+        # a hash migration is scheduled over the synced array, then a long file of disk 0 (reaching beyond the allocation of the
+        # other disks) is rewritten: the next sync goes through all its stripes, re-hashing the synced blocks of the other disks
+        big = list(range(900, 910))
+        g.a.write_file(0, "BIG", big, mtime=g.stamp()); g.rec.env("write 0/BIG"); g.steps.append("write 0/BIG %r" % big)
+        g.a.clock += 10
+        g.rec.sync("-E"); g.steps.append("sync -E")
+        g.rec.rehash(); g.steps.append("rehash")
+        g.a.clock += 10
+        g.a.write_file(0, "BIG", list(range(950, 960)), mtime=g.stamp()); g.rec.env("rewrite 0/BIG")
+        g.steps.append("rewrite 0/BIG")
+        return g
     if pending == "emptydisk":
         # the last disk holds one long file only, from position 0 to beyond the allocation of the other disks; then it loses it
         last = conf.nd - 1
